@@ -297,6 +297,28 @@ def main(argv):
                         want = [expected_item(stmt) + ((2, 4),), ("z=0", None, None, (5, 5))]
                         if items != want:
                             fail("reader#fixed.same_statements", dict(source=src), dict(items=items, expected=want))
+        # three physical lines (quote state must be carried over more than one continuation line)
+        for stmt in STATEMENTS:
+            label, name, toks = stmt
+            hd = (("%s: " % name) if name else "")
+            body = hd + tokens_text(toks)
+            lab = ("%-5d" % label) if label is not None else "     "
+            for i, j in itertools.combinations(range(len(hd) + 1, len(body)), 2):
+                if any(body[c - 1] == " " or (body[c - 1] == body[c] and body[c] in "'\"") for c in (i, j)):
+                    continue
+                if any(l.rstrip().endswith("&") for l in (body[:i], body[i:j])):
+                    continue       # detection of such sources is the known finding D8
+                lines = [lab + " " + body[:i], "     1" + body[i:j], "C between", "     2" + body[j:], "      z = 0"]
+                src = "\n".join(lines) + "\n"
+                cases += 1
+                try:
+                    items = [(i2[1], i2[2], i2[3], i2[4]) for i2 in read_items(src, ignore_comments=True, free=False)]
+                except BaseException as e:  # noqa
+                    fail("reader#fixed.same_statements", dict(source=src), "%s: %s" % (type(e).__name__, e))
+                    continue
+                want = [expected_item(stmt) + ((1, 4),), ("z=0", None, None, (5, 5))]
+                if items != want:
+                    fail("reader#fixed.same_statements", dict(source=src), dict(items=items, expected=want))
         for first in ("x = 1", "program p", " call s()", "  a=b", "module m", "subroutine s", "integer function f()", "10 x = 1", "use m"):
             cases += 1
             if not get_source_info_str(first + "\n      y = 2\n").is_free:
